@@ -263,14 +263,14 @@ def check_C08(tier=None):
 
 
 def check_C09(tier=None):
-    return generic('C09', {'exc', 'accepted'},
+    return generic('C09', {'exc', 'accepted', 'crash'},
                    RULE + 'quantifiers over every literal string of the catalogue and over every assertion constructor; '
                    'only CannotBeRepeatedException outcomes are judged; non-trivial = a quantifier call',
                    repeat_configs, tier, params={'only_ex': 'CannotBeRepeatedException'})
 
 
 def check_C10(tier=None):
-    return generic('C10', {'exc', 'accepted', 'compile'},
+    return generic('C10', {'exc', 'accepted', 'compile', 'crash'},
                    RULE + 'lookbehind constructors over assertion patterns of every width shape; only '
                    'NonFixedWidthPatternException outcomes and compilability are judged; non-trivial = a lookbehind call',
                    width_configs, tier, params={'only_ex': 'NonFixedWidthPatternException'})
